@@ -13,6 +13,47 @@ CHECKS = {
             'every transition is checked against an independent Cholesky/Gram reference. Right level: the property is anchored in '
             'mutable cached state (vects/origin/reciprocal cache).', '2 C01',
             'cell menu of 17-20 cells and 3 origins; tolerance 1e-8 relative; numpy linear algebra trusted as oracle'),
+    'C02': (EX, 'bounded-exhaustive enumeration (every element of cells x 8 pbc x point pairs x call shapes executed on the real dvect/dmag/displacement) against an exhaustive lattice-search oracle',
+            'Every pair of a point lattice (faces, edges, corners, interior) in 8 cells under all 8 periodicity settings and all broadcast shapes is executed; '
+            'membership in the 27-candidate set, minimality, dmag=|dvect| and the true-nearest-image clause (lattice search with proven radius) are checked on each. '
+            'Right level: a stateless numerical kernel whose only quantifier is over inputs - complete enumeration of a face/edge/tilt-covering alphabet.', '2 C02',
+            'values outside the point lattice are not covered; 1e-12 relative tolerance; ties between equal-length images accepted'),
+    'C03': (EX, 'bounded-exhaustive enumeration of 1-3 atom systems on a bin-edge/face/sliver coordinate menu x cells x 8 pbc x cutoffs x storage sizes, each built by the real nlist and compared with a brute-force pair search',
+            'All pairs/triples of a coordinate menu built from the binning geometry (faces, 0.01-cutoff sliver, bin edges) are executed for every cell, periodicity, cutoff and (initialsize, deltasize); '
+            'dense single-bin families cross both storage growth paths; dump/load of the list is replayed. Right level: the hazard is geometric (which bins two images fall in), so a complete product over the bin-relative positions decides it within the bound.', '2 C03',
+            'systems of at most ~60 atoms; pairs within 1e-9 of the cutoff exempt (none in the core alphabet)'),
+    'C04': (EX, 'bounded-exhaustive enumeration: all 343 multiplier tuples and all 19683 integer 3x3 matrices over {-1,0,1} (thorough: rows up to |r|^2<=5) per unit cell, every centering setting, checked with exact coset arithmetic',
+            'Every multiplier tuple / integer vector set within the index bound is executed on the real supersize/rotate/centering conversions for cells of every family; the "same infinite crystal" oracle maps each atom back '
+            'modulo the original lattice in exact integer arithmetic. Right level: the quantifier is over an integer index box, which is enumerated completely.', '2 C04',
+            'index bound |entries| <= 1 (quick) / |r|^2 <= 5 (thorough); positions to 1e-8 of the cell size'),
+    'C05': (EX, 'bounded-exhaustive enumeration of cells x 8 pbc x atom placements (all singles of an 8^3 relative grid, all pairs of a 4^3 grid, triples), each wrapped twice and normalised through both entry points',
+            'Every placement (far outside, on faces, inside) in right/left-handed, tilted and rotated cells under all periodicity settings is executed; image flags must reconstruct positions, non-periodic directions may only grow the cell, '
+            'normalize must be a proper rotation preserving all true nearest-image distances (exhaustive lattice search) and the input. The second wrap starts from a non-initial state.', '2 C05',
+            'systems of 1-3 atoms; 1e-11 scaled tolerance; atoms nominally on a face may be assigned to either side'),
+    'C09': (MC, 'explicit-state BFS over reset_units histories of the module-global unit table (state = last accepted call) plus bounded-exhaustive enumeration of the unit-expression grammar in every table state',
+            'The working-unit table is global mutable state: all histories of depth <= 2 (3 in thorough over a reduced alphabet) of reset_units calls are replayed and the table compared with the table after the last call alone; '
+            'every expression tree up to the depth bound x parenthesisations x whitespace renderings is parsed by the real code and compared with direct evaluation, in every configuration. Right level: history-dependent global state + a finite grammar.', '2 C09',
+            'expression depth bound (<= 4 leaves quick); factors outside float range skipped and counted; unit names limited to a 6-name menu'),
+    'C11': (EX, 'bounded-exhaustive enumeration of stiffness tensors (15 coupling patterns, crystal-system grids, 33 isotropic name pairs) x 42 exact rotations x 21 strains, all ordered rotation pairs for composition',
+            'Every representation round trip, symmetry, C:S identity, point-group invariance and rotation group law is executed on every tensor/rotation of the menu against index-loop oracles written from the definitions. '
+            'Right level: algebraic identities over a finite generating set (21 strains determine the quadratic form; group elements enumerated completely).', '2 C11',
+            'tolerance 1e-9 max|C| (the class zeroes below that itself); menu values only'),
+    'C12': (EX, 'bounded-exhaustive enumeration of materials x Burgers vectors x orientations x (m,n) choices, each solution evaluated on a complete polar grid of field points and array shapes',
+            'Every combination is solved by the real Stroh/isotropic solver and checked for Burgers jump, strain = sym grad u, stress = C:strain, div stress = 0, 1/r homogeneity, K properties, covariance and the isotropic limit. '
+            'Right level: stateless solver, quantifier over inputs; finite-difference clauses hold to a stated tolerance on the grid.', '2 C12',
+            'finite differences h=1e-5 r with 1e-7 tolerance; grid points keep >= 7 degrees from the cut'),
+    'C15': (MC, 'explicit-state BFS over histories of successive point-defect insertions on real Systems with a list-of-records reference model, dedup on the model state',
+            'All histories of depth <= 3 over ~150 operation instances (every ptd_id incl. negative/out of range, positions Cartesian/relative/through all 26 images/at 0.5 and 2 atol, all four defect types and point()) are replayed; '
+            'each transition is compared with the input (survivors, order, snapshot) and with the model (old_id composes over the history; state by position == state by index). Right level: the old-index map is history state.', '2 C15',
+            'three root systems of 2-3 atoms; default atol; exact comparison of survivor data'),
+    'C16': (EX, 'bounded-exhaustive enumeration of all index triples/quadruples in [-4,4] in every leading shape x cells of every family x 8 centering settings, and of all well-formed index strings of a bounded grammar',
+            'Every integer index vector within the bound is converted by the real code and compared with exact integer / reciprocal-basis oracles; zone law checked for all 13.5 M (plane, direction) pairs; every string of the grammar is parsed. '
+            'Right level: the statement itself says "exhaustively within a bound".', '2 C16',
+            'index bound 4 (quick); cells from a fixed menu; 1e-10 relative on Cartesian directions'),
+    'C17': (EX, 'bounded-exhaustive enumeration of reference crystals x imposed deformation gradients / rigid slips x slip-plane positions x cutoffs x permutations/translations, each analysed by the real tools',
+            'Every (crystal, F) and (crystal, slip vector, plane position) combination of the menus is executed and displacement, Strain (G=F^-T, strain, rotation, invariants), Nye tensor, slip_vector, disregistry and differential displacement '
+            'are compared with values computed from the imposed field; renumbering/translation covariance is checked. Right level: exact affine images make the oracle exact, the product is complete.', '2 C17',
+            'crystals of <= ~108 atoms; deformation magnitudes from a fixed menu; 1e-9 tolerance'),
 }
 
 NOT_APPLICABLE = {
